@@ -149,7 +149,7 @@ def handle_name(state, token):
         elif token.string in kwmod.kwlist + ["match", "case", "type"]:
             typ = token.string.upper()
         value = token.string
-        if not value.isascii():
+        if state["normalize_names"] and not value.isascii():
             # PEP 3131: identifiers are compared in their NFKC form
             value = unicodedata.normalize("NFKC", value)
         yield _new_token(typ, value, token.start)
@@ -433,6 +433,10 @@ def get_tokens(s, tolerant, pymode=True, tokenize_ioredirects=True, is_subproc=F
             encoding="utf-8",
         ),
         "tolerant": tolerant,
+        # Text that is only split or measured as subprocess words (Lexer.split,
+        # subproc_toks) keeps its spelling: NFKC is for Python identifiers, and
+        # a value of another length would break the column arithmetic there.
+        "normalize_names": not is_subproc,
     }
     while True:
         try:
